@@ -25,7 +25,6 @@ var Hook Scheduler
 type (
 	Once      = sync.Once
 	WaitGroup = sync.WaitGroup
-	Map       = sync.Map
 	Pool      = sync.Pool
 	Locker    = sync.Locker
 	Cond      = sync.Cond
@@ -154,3 +153,36 @@ func (m *Mutex) TryLock() bool {
 	}
 	return m.real.TryLock()
 }
+
+// Map mirrors sync.Map: every operation is a scheduling point (a store built
+// on sync.Map synchronises through these operations, not through locks).
+type Map struct{ real sync.Map }
+
+func point(what string) {
+	if h := Hook; h != nil {
+		h.BlockUntil(what, nil)
+	}
+}
+
+func (m *Map) Load(k any) (any, bool) { point("Map.Load"); return m.real.Load(k) }
+func (m *Map) Store(k, v any)         { point("Map.Store"); m.real.Store(k, v) }
+func (m *Map) LoadOrStore(k, v any) (any, bool) {
+	point("Map.LoadOrStore")
+	return m.real.LoadOrStore(k, v)
+}
+func (m *Map) LoadAndDelete(k any) (any, bool) {
+	point("Map.LoadAndDelete")
+	return m.real.LoadAndDelete(k)
+}
+func (m *Map) Delete(k any)              { point("Map.Delete"); m.real.Delete(k) }
+func (m *Map) Swap(k, v any) (any, bool) { point("Map.Swap"); return m.real.Swap(k, v) }
+func (m *Map) CompareAndSwap(k, o, n any) bool {
+	point("Map.CompareAndSwap")
+	return m.real.CompareAndSwap(k, o, n)
+}
+func (m *Map) CompareAndDelete(k, o any) bool {
+	point("Map.CompareAndDelete")
+	return m.real.CompareAndDelete(k, o)
+}
+func (m *Map) Range(f func(k, v any) bool) { point("Map.Range"); m.real.Range(f) }
+func (m *Map) Clear()                      { point("Map.Clear"); m.real.Clear() }
